@@ -15,6 +15,11 @@ DESCR = {
     "C05a": ("loop unification uses one trip-count equation instead of lo and hi equations", "block loop with non-zero (or symbolic) lower bound"),
     "C05b": ("unify_e lets `==` unify with inequalities", "callee guard `i == k` against block guard `i < m`"),
     "C06a": ("Block._forward_move tests membership with the wrong list attribute", "move between a `body` list and an `orelse` list"),
+    "C06b": ("Block._forward_move compares (attr, index) tuples, so 'body' < 'orelse' decides", "cursor in the else branch while statements move within the then branch"),
+    "C10b": ("globenv merges config values after an if only over fields written in the then branch", "config field written only in an else/elif branch, then delete_config / write_config"),
+    "C15b": ("MemoryAnalysis returns early for procedures without allocations, skipping the call-site memory check", "memory mismatch at a call inside an allocation-free wrapper"),
+    "C16b": ("Block.expand takes the list length from the body (same idea as C16a, found independently)", "block cursor in an else branch"),
+    "C19b": ("partial_eval keyed by name string (same idea as C19a, found independently)", "loop iterator named like the fixed argument"),
     "C07a": ("DoLiftAlloc.idx_mode extends the input node's index list in place in col mode", "autolift_alloc(mode='col')"),
     "C08a": ("MemoryAnalysis follows only one level of window aliases when placing free()", "window of a window of a local heap buffer used last"),
     "C09a": ("Disjoint_Memory drops the mirrored queries (only earlier-modifies-later is asked)", "purely backward loop-carried dependence"),
